@@ -30,12 +30,13 @@ D12_FIRST_CR = "c06_first_cr_is_crlf()"
 H_FIRST_CR = r'''static int c06_first_cr_is_crlf(void) { /* the first CR at or behind the start is immediately followed by LF */
   int st = 0; for (u64 i = 0; i < C06_N; ++i) { if (i < c06_s || i >= c06_n || st) continue; if (c06_buf[i] == '\r') st = (i + 1 < c06_n && c06_buf[i + 1] == '\n') ? 2 : 1; }
   return st == 2; }'''
-H_REP = r'''static int c06_rep_hits_crlf(void) { /* rep< 2, sor< eol, one< 'a', '\n' > > > under cr_crlf: both iterations match and one of them matches eol on CR LF */
-  u64 p = c06_s; int hit = 0, m = 0;
+H_REP = r'''static int c06_rep_hits_crlf(void) { /* rep< 2, sor< eol, one< 'a', '\n' > > > under cr_crlf: one of the iterations matches eol on CR LF (a failing second
+  iteration still shows the position behind the first one to Control::failure before the rule is rewound) */
+  u64 p = c06_s; int hit = 0;
   for (int k = 0; k < 2; ++k) { if (p >= c06_n) break;
     if (c06_buf[p] == '\r') { if (p + 1 < c06_n && c06_buf[p + 1] == '\n') { hit = 1; p += 2; } else p += 1; }
-    else if (c06_buf[p] == 'a' || c06_buf[p] == '\n') p += 1; else break; m++; }
-  return hit && m == 2; }'''
+    else if (c06_buf[p] == 'a' || c06_buf[p] == '\n') p += 1; else break; }
+  return hit; }'''
 U8 = 'ab\\n\\r\\xc3\\xa4\\xe2\\x82\\xac'
 
 # name, rule, bytes among "\n\r" the rule itself can consume, options
